@@ -770,15 +770,18 @@ func c03Run(c *core.Ctx, k c03Case) {
 					fk = "C03/udp/reader-idle-timeout-clean-eof"
 				}
 				detail = fmt.Sprintf("; no close request or response ever reached the reader's endpoint: its session was closed locally %d ms after the last datagram it was handed (idleSessionTimeout = 60 s → RemoveSession → graceful s.Close()), and Read reported a clean io.EOF", wa.ReaderIdleMs)
-			case k.Fault.Kind == "drop-inflight" && len(wa.LostBefore) > 0 && wa.LostTx <= 1 && (wa.LaterRetxMax >= 3 || wa.LaterFirstTx >= 16+wa.LostSeq+2 || wa.LostGapMs >= 900):
+			case k.Fault.Kind == "drop-inflight" && len(wa.LostBefore) > 0 && wa.LostTx <= 1 && (wa.LaterRetxMax >= 3 || wa.LaterFirstTx >= 16+wa.LostSeq+2):
 				// Only in the dedicated case (fresh session, warmed-up path, the injected loss is the first
 				// one, so the sender is in slow start): (1) the congestion window is minWindowSize + one per
 				// acknowledged segment, so with segment s unacknowledged at most 15 + s later segments can be
 				// transmitted for the first time before s has been retransmitted and acknowledged;
 				// (2) retransmission timers run per segment from its own transmission time: a later segment
 				// cannot time out twice before the earlier, still unacknowledged one has timed out once;
-				// (3) on this path (round-trip samples well below a millisecond, retransmission timeout of
-				// tens of milliseconds) a segment that stays unacknowledged for 900 ms has timed out.
+				// An elapsed-time criterion ("unacknowledged for 900 ms means it has timed out") was removed: a
+				// fresh session's retransmission timeout is 3 s until the first round-trip sample, so on the
+				// unchanged tree a segment lost early can stay un-retransmitted for longer than Close()'s bounded
+				// wait; that history is the recorded finding data-lost-or-overtaken-before-close, not a new one
+				// (the criterion raised a false alarm on an idle machine, vp check 6).
 				fk = "C03/udp/lost-data-not-retransmitted-while-sending"
 				detail = fmt.Sprintf("; segment %d was lost on its first transmission and never retransmitted before the close request went out, although %d later segments were transmitted for the first time in between (a sender with that segment in its send buffer stalls after at most %d) and one of them %d times; %d ms passed between its transmission and the close request (Close() took %v)", wa.LostSeq, wa.LaterFirstTx, 15+wa.LostSeq, wa.LaterRetxMax, wa.LostGapMs, o.closeTook.Round(time.Millisecond))
 			case len(wa.LostBefore) > 0:
